@@ -111,6 +111,25 @@ def _signature(pid, part, v):
     return "%s/%s/%s/%s" % (pid, part, v.sub, v.shape)
 
 
+def _sut_failure(e):
+    """An exception that escaped the oracle.  Every check other than C07 offers only valid
+    input and legal calls, and guards the calls whose failure it wants to describe itself;
+    when an exception nevertheless comes out of the library under test (innermost frame in
+    its source tree), or what the library wrote cannot be split by the independent grammar,
+    that is the library failing on a legal case, not a harness problem.  Anything raised by
+    the harness' own code stays a harness error."""
+    from . import env, grammar
+    tb = traceback.extract_tb(e.__traceback__)
+    if isinstance(e, grammar.ParseError):
+        return Violation("unparsable-output", "the library wrote text the independent grammar cannot split: %s\n%s" % (
+            str(e)[:600], "".join(traceback.format_list(tb[-3:]))[-800:]), "ParseError")
+    if tb and os.path.abspath(tb[-1].filename).startswith(os.path.join(env.ROOT, "gfapy") + os.sep):
+        return Violation("library-raised", "a legal call raised %s: %s\n%s" % (
+            type(e).__name__, str(e)[:600], "".join(traceback.format_list(tb[-4:]))[-1200:]),
+            "%s@%s:%s" % (type(e).__name__, os.path.basename(tb[-1].filename), tb[-1].name))
+    return None
+
+
 def load_findings(pid):
     path = os.path.join(HERE, "known_findings.json")
     if not os.path.exists(path):
@@ -135,6 +154,15 @@ def _run_case(part, case, stats, open_sigs, pid, keep_sample=True):
     except Inconclusive:
         stats.inconclusive += 1
         return None
+    except Exception as e:
+        v = _sut_failure(e)
+        if v is None:
+            raise
+        sig = _signature(pid, part.name, v)
+        if sig in open_sigs:
+            stats.excluded[sig] += 1
+            return None
+        return v
     finally:
         signal.setitimer(signal.ITIMER_REAL, 0)
     if labels:
@@ -296,6 +324,13 @@ def replay(mod, path):
         print("replay: %s" % v)
         print("VIOLATION property=%s replay=%s" % (mod.ID, path))
         return 1
+    except Exception as e:
+        v = _sut_failure(e)
+        if v is None:
+            raise
+        print("replay: %s" % v)
+        print("VIOLATION property=%s replay=%s" % (mod.ID, path))
+        return 1
     print("replay: property holds on this case")
     return 0
 
@@ -352,6 +387,12 @@ def regress_cases(mod, tier):
                     "shape": v.shape}, n
         except Inconclusive:
             pass
+        except Exception as e:
+            v = _sut_failure(e)
+            if v is None:
+                raise
+            return {"part": part.name, "case": body["case"], "sub": v.sub, "msg": v.msg,
+                    "shape": v.shape}, n
         finally:
             signal.setitimer(signal.ITIMER_REAL, 0)
     return None, n
